@@ -23,6 +23,10 @@ extern int mpt_parse_format_pre(const MPT_STRUCT(parser_format) *fmt, MPT_STRUCT
 	
 	/* get next visible character, no save */
 	if ((curr = mpt_parse_nextvis(&parse->src, fmt->com, sizeof(fmt->com))) < 0) {
+		/* input error is no regular end */
+		if (curr != -2) {
+			return MPT_ERROR(BadArgument);
+		}
 		if (!path->len) {
 			return 0;
 		}
